@@ -65,6 +65,20 @@ def load_pcDelta_background(return_bins=True):
     return back, np.array(bins)
 '''
 
+def edge_list(t):
+    """Sequences of bin edges: np.append(a, x) == np.array(list(a) + [x]); index.to_numpy() / list(index) / np.array(..) hold the same values,
+    and element k of any of these forms is element k of the index."""
+    if head(t) == "call":
+        f = strip(t[1])
+        if f == ("glob", "numpy.append") and len(t[2]) == 2 and not t[3]:
+            return ("mut", "append", t[2][0], (t[2][1],), ())
+        if head(f) == "attr" and f[2] in ("to_numpy", "tolist", "to_list") and not t[2] and not t[3]:
+            return f[1]
+        if f == ("glob", "builtins.list") and len(t[2]) == 1 and not t[3]:
+            return t[2][0]
+    return t
+
+
 SCOPES = {"Cdr3Levenshtein": ("PAIRED", "CDR3"), "AlphaCdr3Levenshtein": ("ALPHA", "CDR3"), "BetaCdr3Levenshtein": ("BETA", "CDR3")}
 
 
@@ -133,7 +147,7 @@ def run(r):
     check_equiv(rep, "C05-DS", D + "downsample", "down-sampling keeps the object when short enough, else draws exactly maxseqs elements without replacement", subst(s2.ret, canon_params(s2)),
                 subst(sp2.ret, canon_params(sp2)), where_of(r.P, s2.func, s2.func.node), eq=c17_equiv(c17_vec), key="downsample")
     # background bins
-    compare_function(r, "C05-BG", D + "load_pcDelta_background", SPEC, "bin edges = index values of the bundled table followed by last + 1", eq=Equiv(rewrites=std_rewrites(), modelled={"pandas.read_csv", "os.path.join", "os.path.dirname"}), key="background bins")
+    compare_function(r, "C05-BG", D + "load_pcDelta_background", SPEC, "bin edges = index values of the bundled table followed by last + 1", eq=Equiv(rewrites=std_rewrites() + [edge_list], modelled={"pandas.read_csv", "os.path.join", "os.path.dirname", "numpy.append"}), key="background bins")
     check_background(rep, "C05-BG", r.P.root)
     for rule, fl in (("C05-PIPE", 1), ("C05-DT", 4), ("C05-DS", 1), ("C05-BG", 2), ("C05-PURE", 9)):
         rep.floor(rule, fl)
